@@ -75,6 +75,41 @@ async fn run(name: &str) -> Result<(), String> {
             if s_c > s_c0 { Ok(()) }
             else { Err(format!("p is configured (non-recursive) but no longer registered: after a fault-free change adding q (fs watcher errors {e_b} -> {e_c}), writing p/c.txt produced no event (batches {s_c0} -> {s_c})")) }
         }
+        // C13: a configuration change made while the fs worker is still applying the previous configuration must not be lost
+        "change_during_apply_is_not_lost" => {
+            let big = dir.join("big"); let q = dir.join("q");
+            std::fs::create_dir_all(&q).unwrap();
+            for i in 0..150 { for j in 0..100 { std::fs::create_dir_all(big.join(format!("d{i}/e{j}"))).unwrap(); } }
+            let seen = Arc::new(AtomicUsize::new(0));
+            let s2 = seen.clone();
+            let wx = Watchexec::new(move |action| { if action.paths().next().is_some() { s2.fetch_add(1, Ordering::SeqCst); } action }).map_err(|e| e.to_string())?;
+            wx.config.throttle(Duration::from_millis(20));
+            wx.config.pathset([WatchedPath::recursive(big.clone())]);
+            let main = wx.main();
+            // the worker is now registering 15000 directories; change the configuration meanwhile
+            tokio::time::sleep(Duration::from_millis(15)).await;
+            let t0 = std::time::Instant::now();
+            wx.config.pathset([WatchedPath::recursive(big.clone()), WatchedPath::recursive(q.clone())]);
+            // wait until the big tree is registered (an event from deep inside it arrives)
+            let mut waited = 0;
+            loop {
+                std::fs::write(big.join("d149/e99/probe.txt"), format!("{waited}")).unwrap();
+                tokio::time::sleep(Duration::from_millis(200)).await;
+                waited += 1;
+                if seen.load(Ordering::SeqCst) > 0 || waited > 50 { break; }
+            }
+            let busy_for = t0.elapsed();
+            if seen.load(Ordering::SeqCst) == 0 { main.abort(); let _ = std::fs::remove_dir_all(&dir); return Err("setup: the big tree never got registered".into()); }
+            tokio::time::sleep(Duration::from_millis(1000)).await;
+            let s0 = seen.load(Ordering::SeqCst);
+            std::fs::write(q.join("x.txt"), "1").unwrap();
+            tokio::time::sleep(Duration::from_millis(1000)).await;
+            let s1 = seen.load(Ordering::SeqCst);
+            main.abort();
+            let _ = std::fs::remove_dir_all(&dir);
+            if s1 > s0 { Ok(()) }
+            else { Err(format!("the path set was changed to [big, q] 15 ms after start-up, while the worker was registering `big` (registered within {busy_for:?}); no further change followed, yet q is not registered: writing q/x.txt produced no event (batches {s0} -> {s1})")) }
+        }
         _ => Err(format!("unknown scenario {name}")),
     }
 }
